@@ -17,6 +17,27 @@ P = {
   text="Lean theorems (Props/C04.lean): the identity check of the model equals a declarative specification over attribute sets for every input; soundness and completeness w.r.t. the LEAF subject only, order invariance under List.Perm, S/ST alias invariance, fail-closed, wildcard. Correspondence: minted leaf certificates with AST-generated subjects and identity lists through the real verifier.Verify.",
   note="go-ldap ParseDN and pkix.Name.String() are trusted (their results are model inputs, validated per case by the wf clause). Spacing invariance is checked end-to-end, not proved.",
   tech="Lean 4 proof (induction, List.Perm) + model/implementation correspondence"),
+ "C05": dict(
+  text="Lean theorems (Props/C05.lean): the backwards aggregation loop of revocationFinalResult, with its accumulators, for result vectors of ANY length: final OK iff every certificate is OK/non-revokable; any revoked gives revoked and the reported index points at a revoked certificate whatever the others are; otherwise unknown naming a non-OK certificate (induction with a loop invariant); validator consulted once with the complete chain via the supplied interface, signing time only for signing-authority; validator error fails; skip not performed. Correspondence: all 340 vectors for chains of length 1..4 x scheme x interface x action through the real verifier.Verify with a scripted validator.",
+  note="The validator returns one result per certificate (its contract); vectors of other lengths are outside the quantifier. Which certificate the error names is read from the quoted subject in the error text.",
+  tech="Lean 4 proof (induction over the result vector) + exhaustive model/implementation correspondence"),
+ "C09": dict(
+  text="Lean theorems (Props/C09.lean): validate d = ok iff WellFormed d for OCI and blob documents (WellFormed is the declarative rule list, independent of the code's order of checks), every accepted non-skip statement enforces integrity, scopes_unique_of_valid; the three regexes are syntax trees with a derivative matcher whose rendering is proved equal to the regex text extracted from the source. Correspondence: grammar-valid documents + one mutation operator per rule applied singly and in pairs + random assembly, through the struct API, a JSON round trip and NewVerifierWithOptions; regex recognisers against Go's regexp.",
+  note="go-ldap ParseDN is a parameter (its result travels with each identity); the derivative matcher is validated against Go's regexp, not proved equivalent to it. Three readings where the code is stricter than the statement's list are recorded in corpus/C09/README.md.",
+  tech="Lean 4 proof (validate iff WellFormed) + regenerated facts (tables, regex texts) + correspondence"),
+ "C13": dict(
+  text="Lean theorems (Props/C13.lean): load_ok_iff (success iff known type, plain file name, real directory, every entry a regular file with >=1 parseable certificate, all CA-or-self-signed, tsa: self-signed roots, total non-empty), load_exact (concatenation in directory order), no_partial, file-name recogniser iff, store path exactness, creation-order irrelevance. Correspondence: materialised directory trees (PEM/DER/multi-cert/garbage/empty/sub-directory/symlink/symlinked store) through the real X509TrustStore.GetCertificates, name checks against file.IsValidFileName.",
+  note="Certificate parsing and signature checks are abstracted to per-certificate flags measured by the harness with crypto/x509; fifos/devices/unreadable files are outside the quantifier.",
+  tech="Lean 4 proof (induction over directory entries) + regenerated facts + correspondence on real directory trees"),
+ "C14": dict(
+  text="Lean theorems (Props/C14.lean): a state machine of the temp-file + rename protocol over an abstract POSIX directory with any number of writers, readers, crashes; invariant proved for every event list (every interleaving, every crash prefix): a key name only ever points to the complete bytes of a writer that renamed, reads return a miss or a complete entry, read_not_older (atomic-register order via a logical clock), crash leaves absent-or-complete, temp names never equal a hex key name (concrete hex encoding). Fact obligations pin WriteFile's call order, Set's temp dir = root, Get's single ReadFile. Correspondence: hook-stepped goroutine/child-process writers (all interleavings of 2 writers with reads at every position), SIGKILL at every hook point and mid-write, free-running stress as supporting evidence.",
+  note="Partial: rename atomicity, unlink-while-open and page-cache persistence across SIGKILL are the kernel's; free-running schedules cannot be enumerated (the theorem covers them in the model, hooks cover step boundaries in the implementation); power loss is outside the property. Uses the verif-tagged VerifHook in internal/file.",
+  tech="Lean 4 proof (invariant by induction over arbitrary event lists) + regenerated call skeletons + hook-stepped correspondence with crash injection"),
+ "C20": dict(
+  text="Lean theorems (Props/C20.lean): semver comparison equals the declarative precedence (strict order, trichotomy up to build metadata); parsePluginFromDir's walk equals the declarative candidate rule; replace_iff (replaced iff strictly higher or overwrite), refused_is_noop, installed_exactly_toplevel, dir_equals_file_source, then_listable_fetchable_uninstallable, invariant over arbitrary operation sequences by induction. Facts pin the semver regex, both sub-directory skip tests and that every refusal check precedes the removal. Correspondence: real CLIManager on real directories with shell-script plugins: install/uninstall sequences over a version pool x overwrite x source shapes; semver model against internal/semver.",
+  note="I/O error paths of the walk/copy are not modelled; os.ReadDir order is modelled as code-point order; two behaviours modelled as coded and not forbidden by the property are listed in corpus/C20/README.md.",
+  tech="Lean 4 proof (refinement to an observable-level spec, induction over operation sequences) + regenerated facts + correspondence"),
+
  "C10": dict(
   text="Lean theorems (Props/C10.lean): the paged, limited, early-exit listing loop of notation.Verify equals 'first good signature among the first N of the flattened listing with nothing unfetchable before it' for listings, pagings and limits of any size; call-log bounds; skip touches nothing. Correspondence: exhaustive run of the real notation.Verify (instrumented Repository/Verifier) against the model and the proved Holds predicate.",
   note="oras reference parsing is trusted. Correspondence is exhaustive over listings up to length 5 (quick) / 6 (thorough) x all pagings x limits.",
